@@ -2,6 +2,7 @@ package checks
 
 import (
 	"fmt"
+	"os"
 	"reflect"
 	"strings"
 	"time"
@@ -30,6 +31,9 @@ type gType struct {
 
 // universe of named types: index 0 is the top-level type.
 var c19Universe = []gType{{pkg: "pkga", name: "Top"}, {pkg: "pkga", name: "P"}, {pkg: "pkgb", name: "P"}, {pkg: "pkgb", name: "Q"}, {pkg: "std_msgs", name: "Header"}}
+
+// nDeco decorations: plain, trailing comment, tabs and blanks, constant line, blank+comment lines, comment glued to the name
+const nDeco = 6
 
 type picker struct{ v uint64 }
 
@@ -71,7 +75,7 @@ func typeOptions(nChoices, maxFields int) uint64 {
 }
 
 func setSpace(ds []int, maxFields int) uint64 {
-	n := uint64(5)
+	n := uint64(nDeco)
 	for _, ti := range append([]int{0}, ds...) {
 		n *= typeOptions(len(choicesFor(c19Universe[ti].pkg, ds)), maxFields)
 	}
@@ -102,7 +106,7 @@ func genGraph(i uint64, depSets [][]int, maxFields int) (types []gType, deco int
 		return nil, 0, false
 	}
 	p := &picker{v: i}
-	deco = p.pick(5)
+	deco = p.pick(nDeco)
 	for _, ti := range append([]int{0}, ds...) {
 		t := c19Universe[ti]
 		ch := choicesFor(t.pkg, ds)
@@ -164,6 +168,8 @@ func renderGraph(types []gType, deco int) string {
 				b.WriteString(f.typeText(types) + " " + f.name + " # trailing = comment? no: see below\n")
 			case 2:
 				b.WriteString("  " + f.typeText(types) + " \t  " + f.name + "  \n")
+			case 5:
+				b.WriteString(f.typeText(types) + " " + f.name + "#glued comment\n")
 			default:
 				b.WriteString(f.typeText(types) + " " + f.name + "\n")
 			}
@@ -316,7 +322,7 @@ func mutateDef(def string) []string {
 
 // C19: ROS 1 message definitions parse to the right tree, and always terminate.
 func C19(r *chk.Run) {
-	r.Rule("(a) every type graph over a top-level type plus up to D dependency types drawn from {pkga/P, pkgb/P, pkgb/Q, std_msgs/Header}, up to F fields per type, field type in {int32, string, each dependency referred to exactly-qualified / unqualified-same-package / as Header}, array suffix none/[]/[3] on the first field, 5 decorations (plain, trailing comment, tabs and blanks, constant line, blank+comment lines), INCLUDING cyclic graphs; acyclic graphs must parse to exactly the generating tree; (b) every string of length <= L over {a [ ] / space newline = # 1}; (c) every single-token mutation (bracket deleted/duplicated/swapped, separator shortened/removed/duplicated, MSG: prefix dropped) of the valid definitions of (a) at small scope; every input runs in an isolated worker (ulimit -v 8 GiB, 64 MiB stack cap, 30 s per input): outcome must be ok or error; distinct = inputs run")
+	r.Rule("(a) every type graph over a top-level type plus up to D dependency types drawn from {pkga/P, pkgb/P, pkgb/Q, std_msgs/Header}, up to F fields per type, field type in {int32, string, each dependency referred to exactly-qualified / unqualified-same-package / as Header}, array suffix none/[]/[3] on the first field, 6 decorations (plain, trailing comment, tabs and blanks, constant line, blank+comment lines, comment glued to the field name), INCLUDING cyclic graphs; acyclic graphs must parse to exactly the generating tree; (b) every string of length <= L over {a [ ] / space newline = # 1}; (c) every single-token mutation (bracket deleted/duplicated/swapped, separator shortened/removed/duplicated, MSG: prefix dropped) of the valid definitions of (a) at small scope; every input runs in an isolated worker (ulimit -v 8 GiB, 64 MiB stack cap, 30 s per input): outcome must be ok or error; distinct = inputs run")
 	r.Assume("an unqualified reference is generated only where the resolution rule makes it valid (same package as the enclosing type, or Header for std_msgs/Header)")
 	quickSets := [][]int{{}, {1}, {2}, {3}, {4}, {1, 2}, {2, 3}, {1, 4}, {3, 4}}
 	fullSets := append(append([][]int{}, quickSets...), []int{1, 2, 3}, []int{2, 3, 4}, []int{1, 3, 4})
@@ -365,6 +371,12 @@ func C19(r *chk.Run) {
 		fams = []fam{strFam(7), mutFam(fullSets), graphFam("graphs-1field-<=3deps", fullSets, 1), graphFam("graphs-3fields-<=1dep", quickSets[:5], 3), graphFam("graphs-2fields-<=2deps", quickSets, 2)}
 	}
 	for _, f := range fams {
+		replayIso(r, f.name, f.fn)
+	}
+	if r.Replay != nil {
+		return
+	}
+	for _, f := range fams {
 		if !r.TimeLeft() && !iso.IsWorker() {
 			r.Count(f.name, 0, 0, 0, false, map[string]any{"skipped": "internal deadline"})
 			continue
@@ -402,6 +414,33 @@ func C19(r *chk.Run) {
 		})
 	}
 	r.Nontrivial(0)
+}
+
+// replayIso re-runs the single input recorded in a replay file of an isolated-worker check, in this
+// process (no explorer, no worker): it prints the outcome and exits 1 if it is not ok/error.
+func replayIso(r *chk.Run, name string, fn iso.Fn) {
+	if r.Replay == nil {
+		return
+	}
+	d, _ := r.Replay.Detail.(map[string]any)
+	if d == nil || d["family"] != name {
+		return
+	}
+	idx := int(d["index"].(float64))
+	fmt.Printf("replay family=%s index=%d\n", name, idx)
+	bad := false
+	for _, o := range fn(idx) {
+		fmt.Printf("  %s: %s %s (allocated %d bytes)\n", o.Tag, o.Class, o.Site, o.Alloc)
+		if o.Class != "ok" && o.Class != "error" && !strings.HasPrefix(o.Class, "deferred") {
+			bad = true
+		}
+	}
+	if bad {
+		fmt.Println("replay verdict: VIOLATION")
+		os.Exit(1)
+	}
+	fmt.Println("replay verdict: property holds on this input (a process death or stall would not have returned)")
+	os.Exit(0)
 }
 
 // reportBad turns the bad outcomes of an isolated run into violations, grouped by signature.
